@@ -139,4 +139,14 @@ SubMultisetExact(U, F) == \A i \in 1..Len(U) : Count(U, U[i]) <= Count(F, U[i])
 Without(seq, k) == [i \in 1..(Len(seq) - 1) |-> IF i < k THEN seq[i] ELSE seq[i + 1]]
 UnsatCl(n, F) == ClauseModels(n, F) = {}
 MinimalUnsat(n, U) == UnsatCl(n, U) /\ \A k \in 1..Len(U) : ~UnsatCl(n, Without(U, k))
+(* the same in one pass over the assignments (used by the trace modules above 8 variables):      *)
+(* FalsSets = the sets of members falsified by some assignment.  U is unsatisfiable iff no        *)
+(* assignment falsifies nothing; member k is critical iff some assignment falsifies only k.       *)
+(* MUS.tla checks FalsLemma for every clause sequence it enumerates.                              *)
+FalsSets(n, U) == {{i \in 1..Len(U) : ~SatCl(a, U[i])} : a \in Assignments(n)}
+UnsatW(W) == {} \notin W
+MinimalW(W, len) == \A k \in 1..len : {k} \in W
+FalsLemma(n, U) == LET W == FalsSets(n, U) IN
+                   /\ UnsatW(W) = UnsatCl(n, U)
+                   /\ (UnsatW(W) /\ MinimalW(W, Len(U))) = MinimalUnsat(n, U)
 =============================================================================
